@@ -2,8 +2,8 @@
 // Engine B checks (C11, C20) to (1) validate the virtual inotify/fsnotify model against real
 // event streams and (2) confirm model-found violations end to end.
 //
-//   c11real events  <in.json> <out.json>   histories -> real (name, op) event sequences, with a barrier after every operation
-//   c11real replay  <in.json> <out.json>   histories -> does a real auto-refresh cache converge to a fresh cache's answers?
+//	c11real events  <in.json> <out.json>   histories -> real (name, op) event sequences, with a barrier after every operation
+//	c11real replay  <in.json> <out.json>   histories -> does a real auto-refresh cache converge to a fresh cache's answers?
 package main
 
 import (
@@ -24,12 +24,13 @@ import (
 )
 
 type Input struct {
-	Histories [][]fsops.Op `json:"histories"`
-	Dirs      []string     `json:"dirs"`     // configured directories (short names)
-	Present   []string     `json:"present"`  // directories existing at the start
-	DeadlineMs int         `json:"deadline_ms"`
-	PaceMs     int         `json:"pace_ms"` // pause after every operation (0 = as fast as possible; >0 = the watcher keeps up)
-	Probe      bool        `json:"probe"`   // after convergence, write a probe Spec into every existing configured directory
+	Histories  [][]fsops.Op `json:"histories"`
+	Dirs       []string     `json:"dirs"`    // configured directories (short names)
+	Present    []string     `json:"present"` // directories existing at the start
+	DeadlineMs int          `json:"deadline_ms"`
+	PaceMs     int          `json:"pace_ms"` // pause after every operation (0 = as fast as possible; >0 = the watcher keeps up)
+	Probe      bool         `json:"probe"`
+	GetOnly    bool         `json:"get_only"` // observe through GetDevice of the known names only   // after convergence, write a probe Spec into every existing configured directory
 }
 
 type EventsOut struct {
@@ -157,8 +158,8 @@ func (p pacedFS) WriteFile(path string, d []byte, m os.FileMode) error {
 	}
 	return err
 }
-func (p pacedFS) Rename(o, n string) error    { defer p.nap(); return os.Rename(o, n) }
-func (p pacedFS) Remove(x string) error       { defer p.nap(); return os.Remove(x) }
+func (p pacedFS) Rename(o, n string) error { defer p.nap(); return os.Rename(o, n) }
+func (p pacedFS) Remove(x string) error    { defer p.nap(); return os.Remove(x) }
 func (p pacedFS) RemoveAll(x string) error {
 	// entry by entry, like rm -r
 	var names []string
@@ -194,7 +195,9 @@ func replay(in Input) ReplayOut {
 			dirSet[p] = true
 		}
 		cache, _ := cdi.NewCache(cdi.WithSpecDirs(paths...))
-		_ = cache.ListDevices()
+		if !in.GetOnly {
+			_ = cache.ListDevices()
+		}
 		applicable := true
 		for i, op := range h {
 			var fs fsops.FS = fsops.RealFS{}
@@ -208,6 +211,29 @@ func replay(in Input) ReplayOut {
 		}
 		start := time.Now()
 		conv, detail := false, "history not applicable"
+		for applicable && in.GetOnly {
+			// convergence as seen through GetDevice only (no listing call is ever made on this cache)
+			fresh, _ := cdi.NewCache(cdi.WithSpecDirs(paths...), cdi.WithAutoRefresh(false))
+			names := dirmodel.Resolved(fresh)
+			a, b := dirmodel.GetOnly(cache, names), dirmodel.GetOnly(fresh, names)
+			if reflect.DeepEqual(a, b) {
+				break
+			}
+			if time.Since(start) > deadline {
+				applicable = false
+				detail = fmt.Sprintf("GetDevice-only view %v, fresh cache %v", a, b)
+				break
+			}
+			time.Sleep(2 * time.Millisecond)
+		}
+		if in.GetOnly && !applicable && detail != "history not applicable" {
+			out.Converged = append(out.Converged, false)
+			out.AfterMs = append(out.AfterMs, time.Since(start).Milliseconds())
+			out.Detail = append(out.Detail, detail)
+			_ = cache.Configure(cdi.WithAutoRefresh(false))
+			_ = os.RemoveAll(root)
+			continue
+		}
 		for applicable {
 			fresh, _ := cdi.NewCache(cdi.WithSpecDirs(paths...), cdi.WithAutoRefresh(false))
 			var ok bool
@@ -265,12 +291,12 @@ func replay(in Input) ReplayOut {
 // resources: descriptor, inotify watch and goroutine counts after n reconfigurations, and
 // behaviour of a cache created under a real descriptor shortage (RLIMIT_NOFILE).
 type ResourcesOut struct {
-	Cycles     int  `json:"cycles"`
-	Fds        int  `json:"fds"`
-	InotifyFds int  `json:"inotify_fds"`
-	Watches    int  `json:"watches"`
-	Goroutines int  `json:"goroutines"`
-	ShortageOK bool `json:"shortage_cache_answers_current_contents"`
+	Cycles         int    `json:"cycles"`
+	Fds            int    `json:"fds"`
+	InotifyFds     int    `json:"inotify_fds"`
+	Watches        int    `json:"watches"`
+	Goroutines     int    `json:"goroutines"`
+	ShortageOK     bool   `json:"shortage_cache_answers_current_contents"`
 	ShortageDetail string `json:"shortage_detail"`
 }
 
